@@ -1,0 +1,23 @@
+//go:build verif
+
+// Package verifhook re-exports, under the build tag "verif", internal
+// functions to the verification harness that lives outside this module
+// (a module outside cannot import internal packages). Add-only.
+package verifhook
+
+import (
+	"github.com/open2b/scriggo/internal/runtime"
+)
+
+type Recorder = runtime.VerifRecorder
+type Renderer = runtime.VerifRenderer
+type Context = runtime.Context
+
+var (
+	Escape              = runtime.VerifEscape
+	BytePred            = runtime.VerifBytePred
+	Env                 = runtime.VerifEnv
+	ToString            = runtime.VerifToString
+	NewRenderer         = runtime.VerifNewRenderer
+	DecodeRenderContext = runtime.VerifDecodeRenderContext
+)
